@@ -1246,6 +1246,9 @@ class ChoicePayloadDecoder(ConstructedPayloadDecoderBase):
             if not isTagged or component is eoo.endOfOctets:
                 break
 
+        if not len(asn1Object):
+            raise error.PyAsn1Error('No CHOICE component encoded at %s' % (tagSet,))
+
         yield asn1Object
 
 
